@@ -430,7 +430,7 @@ def run(ctx, only_cases=None):
     if only_cases is not None:
         cases = only_cases
     else:
-        cases = load_corpus() + gen_cases(ctx, 2400 if thorough else 260)
+        cases = load_corpus() + gen_cases(ctx, 6000 if thorough else 260)
         trials = 200 if thorough else 40
         cases += [{"kind": "race", "which": "ban", "trials": trials}, {"kind": "race", "which": "bl", "trials": trials}]
         for maxf in ([2, 3, 4, 5] if thorough else [2, 3]):
